@@ -252,7 +252,7 @@ Proof.
   match type of Ed with _ = Val (_, ?wx) => rename wx into w1 end.
   assert (F1 : copy_post2 w r w1).
   { split; auto. intros O. left. apply NoOrphan_OrphSub. apply O1. apply NoOrphan_OrphSub. auto. }
-  wstepn H path Ep. 2:{ exact F1. }
+  wrun_ro H ltac:(exact F1).
   wstepn H u Em. apply modify_node_wset in Em as (nc' & Hnc' & _ & ->). assert (nc' = nc) as -> by congruence.
   set (c := w_next w) in *. set (w2 := wset w1 c _) in *.
   assert (Hself1 : w_nodes w1 self = Some n) by (rewrite X3; auto; apply C; eexists; eauto).
